@@ -9,7 +9,8 @@ Require Import MV.C20.Model MV.C20.Gen MV.C20.Run MV.C20.Spec.
 Require Import MV.C20.Proofs_Base MV.C20.Proofs_Heap MV.C20.Proofs_PQ MV.C20.Proofs_UF.
 
 (* 1. structural invariant along every history: array lengths agree, elements distinct, parents in range,
-      the parent forest is acyclic (find ends within its fuel at a root), n_comps = number of roots, _siz at a
+      n_elts = _next = |_elts|, the dict _indx maps each element to its position (lookup = index_of), the parent
+      forest is acyclic (find ends within its fuel at a root), n_comps = number of roots, _siz at a
       root = size of its tree; no operation runs out of fuel and ValueError is raised exactly for absent
       elements. *)
 Theorem C20_uf_invariant : forall h : list op, uf_wf (reach h) /\ uf_total (reach h).
@@ -32,26 +33,32 @@ Theorem C20_uf_refines : forall (h : list op) (x y : Z),
 Proof. exact uf_refines. Qed.
 Print Assumptions C20_uf_refines.
 
-(* 3. queries (find, connected, component, roots, components, component_mapping, len, n_comps, in) change
-      nothing but the parent array, and not the partition it encodes. *)
+(* 3. queries (find, connected, component, roots, components, component_mapping, len, n_comps, in, uf[i])
+      change nothing but the parent array (not n_elts, _next, _indx either), and not the partition it encodes. *)
 Theorem C20_uf_queries_pure : forall (h : list op) (o : op),
   is_query o ->
   let s := reach h in
   let s' := apply s o in
   elts s' = elts s /\ siz s' = siz s /\ ncomps s' = ncomps s /\
+  n_elts s' = n_elts s /\ next s' = next s /\ indx s' = indx s /\
   (forall i, i < length (elts s) -> root_of s' i = root_of s i) /\
   (forall x y, same_comp s' x y = same_comp s x y) /\
   (forall x y, conn (h ++ [o]) x y <-> conn h x y).
 Proof. exact uf_queries_pure. Qed.
 Print Assumptions C20_uf_queries_pure.
 
-(* 4. all views describe that one partition: the stored elements are exactly the present ones, each once;
+(* 4. all views describe that one partition: the stored elements are exactly the present ones, each once, in
+      order of first insertion (`added h`); len(uf) = n_elts = _next = their number; uf[i] is the i-th of them
+      for 0 <= i < len and IndexError otherwise (negative indices included);
       component(x) is x's class; components() lists every element exactly once, n_comps non-empty lists, two
       elements share a list iff connected; roots() has n_comps entries, one per class; component_mapping()
       maps every element to its class; n_comps is the number of classes (a transversal of that size exists). *)
 Theorem C20_uf_views : forall h : list op,
   let s := reach h in
   (NoDup (elts s) /\ forall x, In x (elts s) <-> present h x) /\
+  (elts s = added h /\ n_elts s = length (added h) /\ next s = length (added h)) /\
+  (forall i, getitem s i = if ((i <? 0) || (Z.of_nat (length (added h)) <=? i))%Z then None
+                           else Some (nth (Z.to_nat i) (added h) 0%Z)) /\
   (forall x s' l, component s x = Ok (s', l) -> NoDup l /\ forall y, In y l <-> conn h x y) /\
   (forall s' cs, components s = Ok (s', cs) ->
      Permutation (concat cs) (elts s) /\ length cs = ncomps s /\ (forall c, In c cs -> c <> []) /\
@@ -77,11 +84,7 @@ Theorem C20_pq_permutation : forall (item : Type) (lt : item -> item -> bool) (d
   (forall x, Permutation (heappush item lt dummy h x) (x :: h)) /\
   (forall x h', heappop item lt dummy h = Some (x, h') -> Permutation h (x :: h')) /\
   (heappop item lt dummy h = None <-> h = []).
-Proof.
-  exact (fun item lt dummy h =>
-    conj (heappush_perm item lt dummy h)
-         (conj (heappop_perm item lt dummy h) (heappop_none item lt dummy h))).
-Qed.
+Proof. exact heap_permutation. Qed.
 Print Assumptions C20_pq_permutation.
 
 (* 6. heapq, comparator a strict weak order (lt_ok: asymmetric, negation transitive): the heap order is
@@ -92,13 +95,7 @@ Theorem C20_pq_min : forall (item : Type) (lt : item -> item -> bool) (dummy : i
   (forall h x, heap_ok lt dummy h -> heap_ok lt dummy (heappush item lt dummy h x)) /\
   (forall h x h', heap_ok lt dummy h -> heappop item lt dummy h = Some (x, h') ->
      heap_ok lt dummy h' /\ forall y, In y h -> lt y x = false).
-Proof.
-  exact (fun item lt dummy H =>
-    conj (heap_ok_nil item lt dummy)
-         (conj (heappush_ok item lt dummy H)
-               (fun h x h' Hh E => conj (heappop_ok item lt dummy H h x h' Hh E)
-                                        (heappop_min item lt dummy H h x h' Hh E)))).
-Qed.
+Proof. exact heap_min. Qed.
 Print Assumptions C20_pq_min.
 
 (* 7. the comparator GENERATED from PriorityItem.__lt__ is such an order, and it orders by priority. *)
